@@ -45,15 +45,23 @@ type revChain struct {
 
 var revChainCache sync.Map
 
+// revRootNamesSources: chains built while it is set have a root that names an OCSP responder and a CRL distribution point
+var revRootNamesSources bool
+
 // buildRevChain builds (and caches) a valid chain of n certificates whose non-root
 // certificates name the given sources. noCRLSign[i]: certificate i (an issuer) lacks cRLSign.
 func buildRevChain(purp string, slots []certSlots, noCRLSign map[int]bool, bigSerial map[int]int) *revChain {
 	n := len(slots) + 1
-	key := fmt.Sprintf("%s|%v|%v|%v", purp, slots, noCRLSign, bigSerial)
+	key := fmt.Sprintf("%s|%v|%v|%v|%v", purp, slots, noCRLSign, bigSerial, revRootNamesSources)
 	if v, ok := revChainCache.Load(key); ok {
 		return v.(*revChain)
 	}
 	p := basePlan(n, purp, "ec256b")
+	if revRootNamesSources && n > 1 {
+		// the trust anchor itself names a responder and a distribution point: they must never be consulted
+		p.certs[n-1].spec.OCSP = []string{"http://ocsp.test/root/o0"}
+		p.certs[n-1].spec.CRL = []string{"http://crl.test/root/p0.crl"}
+	}
 	for i := 0; i < n-1; i++ {
 		for k, kind := range slots[i].OCSP {
 			p.certs[i].spec.OCSP = append(p.certs[i].spec.OCSP, ocspURL(i, k, kind))
